@@ -192,6 +192,53 @@ Theorem C27_no_stale_replay_fixed : forall c unpack s data,
 Proof. exact step_client_fresh. Qed.
 Print Assumptions C27_no_stale_replay_fixed.
 
+(* ---- regular dns mode: the resolver addon, several clients at once ---- *)
+
+(* The answer DnsResolver.resolve builds from a request keeps its id, opcode, RD and questions
+   and is a response; on the wire it starts with the id of the request. *)
+Theorem C27_resolved_keeps_fields : forall q rc n an,
+  m_id (resolved q rc n an) = m_id q /\ m_query (resolved q rc n an) = false
+  /\ m_op (resolved q rc n an) = m_op q /\ m_rd (resolved q rc n an) = m_rd q
+  /\ m_qn (resolved q rc n an) = m_qn q /\ m_qs (resolved q rc n an) = m_qs q
+  /\ ((m_id q < 65536)%N -> exists h l rest, m_packed (resolved q rc n an) = h :: l :: rest /\ u16be h l = m_id q).
+Proof. exact resolved_fields. Qed.
+Print Assumptions C27_resolved_keeps_fields.
+
+(* When the resolver step is a function of the request it is given (act AResolve: the response is
+   built from the request of the flow) a client message is answered by exactly one reply, built
+   from this very message - in any state of the connection. *)
+Theorem C27_resolver_reply_own_query : forall c s m rc n an rest,
+  fix_fresh c = true -> s_crashed s = false ->
+  s_script s = AResolve rc n an :: ANone :: rest ->
+  exists ord,
+  snd (handle_msg c true s m) =
+    [OHook HReq ord (Some m) None false;
+     OHook HResp ord (Some m) (Some (resolved m rc n an)) false;
+     OSend true (pack_message (resolved m rc n an) (ctcp c))].
+Proof. exact resolver_reply_own_query. Qed.
+Print Assumptions C27_resolver_reply_own_query.
+
+(* Concurrent histories: any number of client connections (one layer each), any interleaving of
+   their events.  Each connection ends in the state, and receives the commands, of the run of its
+   own events alone ... *)
+Theorem C27_concurrent_clients_independent : forall unpack c es ss i s,
+  nth_error ss i = Some s ->
+  nth_error (fst (sys_run unpack c ss es)) i = Some (fst (run unpack c s (proj_events i es)))
+  /\ proj_outs i (snd (sys_run unpack c ss es)) = snd (run unpack c s (proj_events i es)).
+Proof. exact sys_run_proj. Qed.
+Print Assumptions C27_concurrent_clients_independent.
+
+(* ... hence every reply sent on connection i answers a query extracted from connection i (the
+   ghost list s_cq of ITS final state), for scripts of explicit and resolver-made responses. *)
+Theorem C27_concurrent_replies_answer_own_queries : forall unpack c inits es i script conn,
+  fix_drop c = true ->
+  nth_error inits i = Some (script, conn) ->
+  let r := sys_run unpack c (map (fun p => init (fst p) (snd p)) inits) es in
+  exists si, nth_error (fst r) i = Some si /\
+  forall data, In (i, OSend true data) (snd r) -> answers_query c script (s_cq si) (s_sm si) data.
+Proof. exact concurrent_replies. Qed.
+Print Assumptions C27_concurrent_replies_answer_own_queries.
+
 (* ---- hypotheses are satisfiable on non-trivial values ---- *)
 Theorem C27_nonvacuous :
   let chunks := [[x00]; [x01; x01; x00]; [x01; x02]] in
